@@ -52,20 +52,33 @@ func checkC07(c *Ctx, r *Result, tier string) {
 	}
 	sort.Slice(fns, func(i, j int) bool { return c.FuncKey(fns[i]) < c.FuncKey(fns[j]) })
 	r.Floor("R07a-functions", len(fns), 15)
+	// functions with one result that is always a fresh allocation — directly or as the result of
+	// another such function (an accessor wrapping the constructor): least fixpoint
 	allocOnly := map[*ssa.Function]bool{}
-	for _, fn := range c.ModFuncs() {
-		if c.PkgOf(fn) != "parser" || fn.Signature.Results().Len() != 1 {
-			continue
-		}
-		all := true
-		for _, rv := range returnedValues(fn, 0) {
-			switch rv.(type) {
-			case *ssa.Alloc, *ssa.MakeInterface:
-			default:
-				all = false
+	for changed := true; changed; {
+		changed = false
+		for _, fn := range c.ModFuncs() {
+			if c.PkgOf(fn) != "parser" || fn.Signature.Results().Len() != 1 || allocOnly[fn] {
+				continue
+			}
+			rvs := returnedValues(fn, 0)
+			all := len(rvs) > 0
+			for _, rv := range rvs {
+				switch x := rv.(type) {
+				case *ssa.Alloc, *ssa.MakeInterface:
+				case *ssa.Call:
+					if g := x.Call.StaticCallee(); g == nil || !allocOnly[g] {
+						all = false
+					}
+				default:
+					all = false
+				}
+			}
+			if all {
+				allocOnly[fn] = true
+				changed = true
 			}
 		}
-		allocOnly[fn] = all
 	}
 	mkOracle := func() *PathOracle {
 		o := &PathOracle{NonNilParams: true}
